@@ -232,6 +232,7 @@ extern int_t   sLUMemInit (fact_t, void *, int_t, int, int, int_t, int,
                             GlobalLU_t *, int **, float **);
 extern void    sSetRWork (int, int, float *, float **, float **);
 extern void    sLUWorkFree (int *, float *, GlobalLU_t *);
+extern void    sLUMemFree (fact_t, GlobalLU_t *);
 extern int_t   sLUMemXpand (int, int_t, MemType, int_t *, GlobalLU_t *);
 
 extern float  *floatMalloc(size_t);
